@@ -2,7 +2,7 @@
    Model.v = gix-mailmap (after fix 44459dddd), Spec.v = git 2.39 mailmap.c. *)
 From Coq Require Import Arith List.
 From GixV.Base Require Import Bytes BytesFacts Outcome.
-From GixV.C53 Require Import Model Spec ProofsSearch ProofsVec ProofsMap ProofsTop ProofsParse ProofsFile.
+From GixV.C53 Require Import Model Spec ProofsSearch ProofsVec ProofsMap ProofsTop ProofsParse ProofsFile ProofsFgets ProofsKeys.
 Import ListNotations.
 
 (* 1. core's binary_search_by (the Rust 1.95 loop) on any probe that is Less on [0,p), Equal on
@@ -166,40 +166,39 @@ Theorem map_user_respects_equiv :
   forall m m' n e, map_equiv m m' -> g_map_user m n e = g_map_user m' n e.
 Proof. exact user_equiv. Qed.
 
-(* 11. The text-level statement except known: Snapshot::from_bytes(text).resolve(name, email) is
-       what `git check-mailmap` computes (Spec.g_check_mailmap), provided
-       - fgets' pieces are the lines (no line over 1022 bytes: class line-over-1022-bytes),
-       - every line is plain (classes nul-byte, unicode-whitespace) and carries none of
-         trailing-text, email-edge-whitespace, empty-second-email,
-       - the lookup keys are valid UTF-8 (the two non-utf8 classes), and
+(* 11. git's fgets(buffer,1024) pieces are the LF-terminated lines when none is over 1022 bytes *)
+Theorem fgets_pieces_are_lines :
+  forall text, Forall (fun c => length c <= 1022) (lines_wt text) -> fgets_chunks text = lines_wt text.
+Proof. exact fgets_chunks_lines. Qed.
+
+(* 12. The text-level statement except known: for EVERY mailmap text and identity,
+       Snapshot::from_bytes(text).resolve(name, email) is what `git check-mailmap` computes
+       (Spec.g_check_mailmap), provided
+       - [text_clean text]: no line over 1022 bytes (class line-over-1022-bytes), every line plain
+         ASCII without NUL, VT, FF (classes nul-byte, unicode-whitespace; also excludes non-ASCII
+         text, see NOTES) and with none of trailing-text, email-edge-whitespace, empty-second-email,
+       - the identity is valid UTF-8 (class non-utf8-identity), and
        - no old email differs from the looked-up one in case only (class email-case-normalized). *)
 Theorem resolve_text_is_git_except_known :
   forall text name email,
-    fgets_chunks text = lines_wt text ->
-    (forall c, In c (lines_wt text) -> line_ok c) ->
-    Forall en_ok (parse_ignore_errors text) ->
+    text_clean text = true ->
     is_utf8 name = true -> is_utf8 email = true ->
     email_case_exact (parse_ignore_errors text) email ->
     exists s, from_bytes text = Ok s /\ resolve s name email = g_check_mailmap text name email.
-Proof. exact resolve_text. Qed.
+Proof. exact resolve_text_clean. Qed.
 Example resolve_text_example :
   let text := bs "Joe <a@x>" ++ [x0a] ++ bs " <n@x>  J <a@x> " ++ [x0d; x0a] ++ bs "# c" ++ [x0a] ++ bs "just a name" in
-  fgets_chunks text = lines_wt text
-  /\ (forall c, In c (lines_wt text) -> line_ok c)
-  /\ Forall en_ok (parse_ignore_errors text)
+  text_clean text = true
   /\ email_case_exact (parse_ignore_errors text) (bs "a@x")
   /\ g_check_mailmap text (bs "j") (bs "a@x") = (bs "j", bs "n@x").
 Proof.
-  cbv zeta. split; [vm_compute; reflexivity|]. split.
-  - intros c Hc. vm_compute in Hc.
-    destruct Hc as [<-|[<-|[<-|[<-|[]]]]]; split; vm_compute; reflexivity.
-  - split; [vm_compute; repeat constructor|]. split; [|vm_compute; reflexivity].
-    intros en Hen. vm_compute in Hen. destruct Hen as [<-|[<-|[]]]; intros _; reflexivity.
+  cbv zeta. split; [vm_compute; reflexivity|]. split; [|vm_compute; reflexivity].
+  intros en Hen. vm_compute in Hen. destruct Hen as [<-|[<-|[]]]; intros _; reflexivity.
 Qed.
 
 (* The full statement of the property, at the level of the mailmap TEXT.  It is false (theorems 8
    and six further parser-level classes, see NOTES.md); what is proved is theorems 5-7 from the
-   parsed entries onwards, theorem 9 per line, and theorem 11: this statement
+   parsed entries onwards, theorem 9 per line, and theorem 12: this statement
    under the explicit exclusion of the known classes. *)
 Definition resolve_full_statement : Prop :=
   forall text name email,
